@@ -119,6 +119,7 @@ func runSCEP(k *Case) result {
 
 	// the reply as a client reads it
 	cl, got := "err", "none"
+	var hs []handed
 	if rec.Code == http.StatusOK {
 		if p7, err := pkcs7.Parse(rec.Body.Bytes()); err == nil && p7.Verify() == nil {
 			var st smallscep.PKIStatus
@@ -132,6 +133,7 @@ func runSCEP(k *Case) result {
 						if content, err := inner.Decrypt(sc, dec); err == nil {
 							if certs, err := smallscep.CACerts(content); err == nil && len(certs) > 0 {
 								got = "cert"
+								hs = append(hs, handed{"x509_certs", certs[0].SerialNumber.String()})
 							}
 						}
 					}
@@ -144,7 +146,8 @@ func runSCEP(k *Case) result {
 	}
 	d := func(t string) int { return after[t] - before[t] }
 	stored := d("x509_certs")
-	out := fmt.Sprintf("%s got=%s tok=0 stored=%d data=%d rev=0 reuse=na fc=%s trace=%s", cl, got, stored, d("x509_certs_data"),
-		failClosed(cl, got, ev, e.rec.endpoints(), stored, 0, 0, "na", false), c.List(ev))
+	nrec := e.recorded(hs)
+	out := fmt.Sprintf("%s got=%s tok=0 stored=%d data=%d rev=0 reuse=na handed=%d recorded=%d fc=%s trace=%s", cl, got, stored,
+		d("x509_certs_data"), len(hs), nrec, failClosed(cl, got, ev, e.rec.endpoints(), len(hs), nrec, 0, 0, "na", false), c.List(ev))
 	return result{out: out, trace: ev}
 }
